@@ -97,16 +97,23 @@ func c15Compare(c *core.Ctx, feeds []*gtfs.Realtime, from, to time.Time, kind st
 	sort.Strings(want)
 	var got []string
 	for i := range j.Trips {
-		got = append(got, j.Trips[i].TripUID)
+		got = append(got, journalKey(&j.Trips[i]))
+		// sorted by trip UID, without duplicates (the UID's textual format is the library's business)
+		c.Cmp(1)
+		if i > 0 && !(j.Trips[i-1].TripUID < j.Trips[i].TripUID) {
+			c.Violationf("C15|not-sorted-by-uid|"+kind, detail(), "journal trips are not strictly ascending by TripUID: %q before %q", j.Trips[i-1].TripUID, j.Trips[i].TripUID)
+		}
 	}
+	gotSorted := append([]string(nil), got...)
+	sort.Strings(gotSorted)
 	c.Cmp(1)
-	if fmt.Sprint(want) != fmt.Sprint(got) {
-		c.Violationf("C15|selection|"+kind, detail(), "window %s [%d,%d]: journal holds %v, expected exactly %v (sorted by UID, assigned at least once, start in the closed window)", kind, from.Unix(), to.Unix(), got, want)
+	if fmt.Sprint(want) != fmt.Sprint(gotSorted) {
+		c.Violationf("C15|selection|"+kind, detail(), "window %s [%d,%d]: journal holds (start|suffix) %v, expected exactly %v (assigned at least once, start in the closed window, one entry per distinct start instant and suffix)", kind, from.Unix(), to.Unix(), gotSorted, want)
 		return
 	}
 	for i := range j.Trips {
 		g := &j.Trips[i]
-		w := ref[g.TripUID]
+		w := ref[journalKey(g)]
 		c.Cmp(9)
 		mism := func(field string, a, b any) {
 			c.Violationf("C15|field|"+field, detail(), "trip %s: %s is %v, expected %v", g.TripUID, field, a, b)
